@@ -123,7 +123,7 @@ def _mi(op, a, b):
     return model_int(op, a, b)
 
 
-def nesting_programs():
+def nesting_programs(shadow_driven=False):
     """Grouping is by parentheses only (SPECIFICATION 4.3/4.4: no precedence, infix strictly left to right): every
     (outer, inner) pair of arithmetic operators in every position, in prefix, parenthesised infix and unparenthesised infix
     form; comparisons over arithmetic; negation of and by a nested operand.  One function per shape (operands are
@@ -168,6 +168,13 @@ def nesting_programs():
         text = "".join(fns)
         for ci, ch in enumerate(chunks):
             text += "fn t%d() -> int {\n%s\n    return 0\n}\nshadow t%d { assert true }\n" % (ci, "\n".join(ch), ci)
+        if shadow_driven:
+            # C03: the same cells evaluated once by the compile-time evaluator (shadow block) and once by the binary
+            text += ("fn drv() -> int {\n" + "".join("    (t%d)\n" % ci for ci in range(len(chunks))) + "    return 0\n}\n"
+                     'shadow drv {\n    (println "<<S")\n    (drv)\n    (println ">>E")\n}\n'
+                     'fn main() -> int {\n    (println "<<S")\n    (drv)\n    (println ">>E")\n    return 0\n}\nshadow main { assert true }\n')
+            progs.append(("nest_" + form, text, "\n".join(exp) + "\n", n))
+            continue
         text += "fn main() -> int {\n" + "".join("    (t%d)\n" % ci for ci in range(len(chunks))) + '    (println "SENTINEL")\n    return 0\n}\nshadow main { assert true }\n'
         progs.append(("nest_" + form, text, "\n".join(exp) + "\nSENTINEL\n", n))
     return progs
